@@ -628,6 +628,13 @@ func (fc *FuncCtx) execMakeInterface(fr *Frame, st *State, x *ssa.MakeInterface)
 		} else {
 			term = fc.u.fresh("iface", "Int")
 		}
+	case StructV:
+		// a struct boxed by value: remembered so that contracts can name its fields (unbox(x, T).f)
+		term = fc.u.fresh("iface", "Int")
+		if fc.boxedStructs == nil {
+			fc.boxedStructs = map[string]StructV{}
+		}
+		fc.boxedStructs[term+"|"+shortType(t)] = y
 	default:
 		term = fc.u.fresh("iface", "Int")
 	}
